@@ -1,6 +1,7 @@
 import Driver.LuCheck
 import Driver.PivotEng
 import Driver.FactorEng
+import Driver.SchedEng
 
 def readAll (h : IO.FS.Stream) : IO String := do
   let mut acc := ""
@@ -16,4 +17,6 @@ def main (args : List String) : IO UInt32 := do
   | ["lucheck"] => Drv.lucheckMain (← readAll stdin)
   | ["pivot"] => Drv.pivotMain (← readAll stdin)
   | ["factor"] => Drv.factorMain (← readAll stdin)
+  | ["schedtrace"] => Drv.schedTraceMain (← readAll stdin)
+  | ["schedexplore"] => Drv.schedExploreMain (← readAll stdin)
   | _ => IO.eprintln "usage: sludrv <engine>   (input on stdin)"; return 2
